@@ -288,11 +288,36 @@ def gen_vmx(rng, tier, adversarial):
     return case
 
 
-def repeat_view(obj, first):
+_OTHER = {}
+
+
+def other_doc(fmt):
+    """a fixed second configuration of the same format (its own disks), built once per process"""
+    if fmt not in _OTHER:
+        gen = {"vmx": gen_vmx, "ovf": gen_ovf, "vbox": gen_vbox, "pvs": gen_pvs}[fmt]
+        c = gen(core.Rng(0xD15C + len(fmt)), "quick", False)
+        _OTHER[fmt] = c["text"] if fmt == "vmx" else c["xml"]
+    return _OTHER[fmt]
+
+
+def repeat_view(obj, first, make_other=None):
     """the disk list is a function of the stored configuration: asking again (after a complete and after a partial
-    iteration) gives the same list.  -> None when stable (or when the first call already raises), else a description"""
+    iteration, and after another configuration was opened and listed in the same process) gives the same list.
+    -> None when stable (or when the first call already raises), else a description"""
     if not isinstance(first, list):
         return None
+    if make_other is not None:
+        try:
+            other = make_other()
+            mine = list(other.disks())
+            again = list(obj.disks())
+            theirs = list(other.disks())
+        except Exception as e:  # noqa: BLE001
+            return f"raised {type(e).__name__} with a second configuration open"
+        if again != first:
+            return f"first call {first!r}; after another configuration was opened {again!r}"
+        if mine != theirs:
+            return f"the other configuration's list moved: {mine!r} then {theirs!r}"
     try:
         it = iter(obj.disks())
         next(it, None)
@@ -323,7 +348,8 @@ class VmxSuite(Suite):
         if exc_of(v):
             return {"parse": v}
         d = guarded(lambda: list(v.disks()))
-        return {"parse": None, "attr": [list(kv) for kv in v.attr.items()], "disks": d, "repeat": repeat_view(v, d)}
+        return {"parse": None, "attr": [list(kv) for kv in v.attr.items()], "disks": d,
+                "repeat": repeat_view(v, d, lambda: VMX.parse(other_doc("vmx")))}
 
     def coq_term(self, case):
         return (f"let a := parse_dictionary {cp(case['text'])} in "
@@ -521,7 +547,8 @@ class XmlSuite(Suite):
             return {"ctor": made}
         obj, root = made
         d = guarded(lambda: list(obj.disks()))
-        return {"ctor": None, "tree": dump_tree(root), "disks": d, "repeat": repeat_view(obj, d)}
+        return {"ctor": None, "tree": dump_tree(root), "disks": d,
+                "repeat": repeat_view(obj, d, lambda: self.make(io.StringIO(other_doc(self.fmt)))[0])}
 
     def term(self, root_term):       # -> Gallina: (model result, spec list, wf)
         raise NotImplementedError
